@@ -6,6 +6,7 @@ import metricgen as mg
 import regen as regen_mod
 from common import Driver, f2b, b2f, close, sparse_to_dict
 
+REGEN = ("constants", "registry", "distsrc", "sparsesrc")
 
 
 def sparse_pair(rng, name, dim=None):
@@ -84,6 +85,11 @@ def run(ctx):
                 "fit(dense) graphs; non-trivial = supports overlap partially")
     ctx.assumptions += ["sparse helpers keep float32 intermediate arrays: values compared at rel/abs 2e-5",
                         "ll_dirichlet is compared on count data (integers), the domain on which both versions define it"]
+    # the translated kernels of umap/sparse.py (what the C13Src* theorems are about) against the Python source itself
+    import srcval
+    srcval.validate_sparse(ctx, 150 if ctx.thorough else 25, rng)
+    ctx.assumptions.append("the AST -> Lean translator (harness/translate.py) is validated on every run by executing its output "
+                           "(srcdrv) against the Python source (.py_func) of umap/sparse.py on generated canonical rows")
     drv = Driver()
     pend = []
 
